@@ -50,7 +50,30 @@ var userVariants = []variantKind{
 		return true
 	}},
 	{"base-plasma", func(c *Ctx, b *nom.AccountBlock) bool { b.BasePlasma += uint64(1 + c.R.Intn(1000)); return true }},
+	{"base-plasma-lowered", func(c *Ctx, b *nom.AccountBlock) bool {
+		// below the honest value but not 0: passes every "total >= base" comparison made with the delivered number
+		if b.BasePlasma < 2 {
+			return false
+		}
+		b.BasePlasma = 1 + uint64(c.R.Int63n(int64(b.BasePlasma-1)))
+		return true
+	}},
 	{"total-plasma", func(c *Ctx, b *nom.AccountBlock) bool { b.TotalPlasma += uint64(1 + c.R.Intn(1000)); return true }},
+	{"total-plasma-lowered", func(c *Ctx, b *nom.AccountBlock) bool {
+		if b.TotalPlasma < 2 {
+			return false
+		}
+		b.TotalPlasma = 1 + uint64(c.R.Int63n(int64(b.TotalPlasma-1)))
+		return true
+	}},
+	{"both-plasma-lowered", func(c *Ctx, b *nom.AccountBlock) bool {
+		if b.TotalPlasma < 2 || b.BasePlasma < 2 {
+			return false
+		}
+		b.BasePlasma--
+		b.TotalPlasma--
+		return true
+	}},
 	{"plasma-zeroed", func(c *Ctx, b *nom.AccountBlock) bool {
 		if b.BasePlasma == 0 && b.TotalPlasma == 0 {
 			return false
@@ -138,6 +161,7 @@ func variantsHistory(c *Ctx, id int) {
 	users := []types.Address{g.User1.Address, g.User2.Address, g.User3.Address, g.User4.Address, g.User5.Address}
 	rounds := 10 + c.R.Intn(8)
 	var abFields, mFields []string // fields not covered by the hash, found by experiment on the first block / momentum
+	uintDonors = map[string][]uint64{}
 	for r := 0; r < rounds; r++ {
 		// honest traffic on the producer: a few user blocks (sends, receives, contract calls), pooled, not yet in a momentum
 		var fresh []*nom.AccountBlock
@@ -182,6 +206,7 @@ func variantsHistory(c *Ctx, id int) {
 						fail("the experiment on ComputeHash says signature / public key are covered by the hash: %v", abFields)
 					}
 				}
+				noteUintDonors(b, abFields)
 				fvs := fieldVariantsOf(b, abFields)
 				fv := fvs[c.R.Intn(len(fvs))]
 				field = fv.field
@@ -217,8 +242,8 @@ func variantsHistory(c *Ctx, id int) {
 							tag = "C13 user-block-changes-hash"
 							poisoned = true
 						}
-						fail("%s: a variant (%s) of block %s/%d with the same hash %s was accepted by a follower and is stored with different bytes than the original (original %d bytes, signature %d bytes, public key %d bytes; stored %d bytes, signature %d bytes, public key %d bytes)",
-							tag, vk.name, addrName(b.Address), b.Height, h8(b.Hash), len(y), len(b.Signature), len(b.PublicKey), len(x), len(hb.Signature), len(hb.PublicKey))
+						fail("%s: a variant (%s) of block %s/%d with the same hash %s was accepted by a follower and is stored with different bytes than the original (original %d bytes, signature %d bytes, public key %d bytes, base/total plasma %d/%d; delivered base/total plasma %d/%d; stored %d bytes, signature %d bytes, public key %d bytes, base/total plasma %d/%d)",
+							tag, vk.name, addrName(b.Address), b.Height, h8(b.Hash), len(y), len(b.Signature), len(b.PublicKey), b.BasePlasma, b.TotalPlasma, v.BasePlasma, v.TotalPlasma, len(x), len(hb.Signature), len(hb.PublicKey), hb.BasePlasma, hb.TotalPlasma)
 					}
 				}
 			}
@@ -367,7 +392,8 @@ func variantsHistory(c *Ctx, id int) {
 					kind := ""
 					switch c.R.Intn(4) {
 					case 0:
-						v.BasePlasma, v.TotalPlasma = 7, 9
+						pl := [][2]uint64{{7, 9}, {0, 1}, {1, 1}, {1, 0}, {^uint64(0), ^uint64(0)}, {21000, 21000}}[c.R.Intn(6)]
+						v.BasePlasma, v.TotalPlasma = v.BasePlasma+pl[0], v.TotalPlasma+pl[1]
 						kind = "receive-plasma"
 					case 1:
 						if len(v.DescendantBlocks) == 0 {
@@ -379,7 +405,11 @@ func variantsHistory(c *Ctx, id int) {
 						if len(v.DescendantBlocks) == 0 {
 							continue
 						}
-						v.DescendantBlocks[0].TotalPlasma = 12345
+						if c.R.Intn(2) == 0 {
+							v.DescendantBlocks[0].TotalPlasma += []uint64{1, 12345, ^uint64(0)}[c.R.Intn(3)]
+						} else {
+							v.DescendantBlocks[0].BasePlasma += []uint64{1, 21000, ^uint64(0)}[c.R.Intn(3)]
+						}
 						kind = "descendant-plasma"
 					default:
 						if len(v.DescendantBlocks) == 0 {
